@@ -332,6 +332,14 @@ func RunWorker(o WorkerOpts) int {
 				break
 			}
 		}
+		if w.Hooks != nil {
+			t, y, a, r, po := w.Hooks.Totals()
+			w.Res.Counters["hook_events/tick"] += t
+			w.Res.Counters["hook_events/yield"] += y
+			w.Res.Counters["hook_events/acquire"] += a
+			w.Res.Counters["hook_events/release"] += r
+			w.Res.Counters["hook_events/poison"] += po
+		}
 		flush()
 		if w.Res.HarnessErr != "" {
 			break
